@@ -63,6 +63,9 @@ var verifMethodClasses = map[string]int{
 var verifWritingMethods = map[string]bool{
 	"Set": true, "Delete": true, "VerifiableSet": true, "StreamSet": true, "StreamVerifiableSet": true, "ExecAll": true, "StreamExecAll": true,
 	"SetReference": true, "VerifiableSetReference": true, "ZAdd": true, "VerifiableZAdd": true, "SQLExec": true,
+	// document API: collection DDL and document writes
+	"CreateCollection": true, "UpdateCollection": true, "DeleteCollection": true, "AddField": true, "RemoveField": true,
+	"CreateIndex": true, "DeleteIndex": true, "InsertDocuments": true, "ReplaceDocuments": true, "DeleteDocuments": true,
 }
 
 func verifClassOf(perm uint32) int {
